@@ -333,7 +333,7 @@ class AbstractMessageLogEntry(abc.ABC):
 
         try:
             return self._apply_operator(operator, val, expected)
-        except (TypeError, AttributeError):
+        except (TypeError, AttributeError, ValueError):
             # The operator can't be applied to a value of this type, so it can't match.
             return False
 
@@ -366,9 +366,9 @@ class AbstractMessageLogEntry(abc.ABC):
         elif operator == ">=":
             return val >= expected
         elif operator == "&":
-            return val & expected
+            return bool(val & expected)
         else:
-            raise ValueError(f"Unexpected operator {operator!r}")
+            raise NotImplementedError(f"Unexpected operator {operator!r}")
 
     def _base_matches(self, matcher: "MessageFilterNode") -> typing.Optional[bool]:
         if len(matcher.selector) == 1:
